@@ -107,12 +107,23 @@ def check_program(acc, w, text, origin, ncomments):
             f, m = panic_sig(det)
             acc.violation({"oracle": "panic", "site": f, "msg": m}, {"text": text, "indent": indent})
         else:
-            if acc.n.get("reduced", 0) < 200:
+            if origin == "supported-comment-position":
+                core = text
+            elif acc.n.get("reduced", 0) < 200:
                 acc.inc("reduced")
                 core = reduce_failure(w, text, indent, kind)
             else:
                 core = text
             k2, d2 = verdict(w, core, indent)
+            if origin == "supported-comment-position":
+                sig = {"oracle": kind + "@supported-comment-position"}
+                if kind == "comments-differ" and isinstance(det, dict):
+                    a = w.call({"op": "lex", "code": text}).get("tokens", [])
+                    b = w.call({"op": "lex", "code": det.get("output", "")}).get("tokens", [])
+                    if fmtlib.respaced(fmtlib.comments_of(a)) == fmtlib.comments_of(b):
+                        sig["class"] = "blank-inserted-after-comment-marker"
+                acc.violation(sig, {"text": text, "indent": indent, "result": det})
+                continue
             acc.violation({"oracle": kind, "features": features(core, kind, d2 if k2 == kind else det)},
                           {"text": text, "core": core, "indent": indent, "core_result": d2, "result": det})
 
@@ -140,6 +151,9 @@ def shard(idx, n, tier, seed, binary):
             toks = w.call({"op": "lex", "code": t}).get("tokens", [])
             for d, nc in fmtlib.decorate(t, toks, rng, 8 if tier == "quick" else 60):
                 check_program(acc, w, d, "decorated", nc)
+        for t in runner.chunks(fmtlib.supported_comment_programs() + fmtlib.supported_comment_programs(unspaced=True), idx, n):
+            check_program(acc, w, t, "supported-comment-position", 1)
+            acc.inc("supported_comment_position_programs")
         acc.sample({"text": corpus[idx % len(corpus)]})
     finally:
         w.close()
